@@ -662,6 +662,7 @@ func TestVerifC47(t *testing.T) {
 			pending = true
 		}
 
+		undo := map[string]*c47File{} // dir/name -> content before the last edit (nil: the edit created the file)
 		actions := map[string]func(*rapid.T){
 			"apply": doApply, "apply2": doApply, "apply3": doApply, // applies are a third of the actions
 			// a reload that fails until the context ends, immediately followed by another apply (no change in between)
@@ -687,11 +688,86 @@ func TestVerifC47(t *testing.T) {
 					must(os.RemoveAll(filepath.Join(d.In, n)))
 					delete(d.Subdirs, n)
 				}
+				key := fmt.Sprintf("%d/%s", i, n)
+				if old, ok := d.Files[n]; ok {
+					undo[key] = &old
+				} else {
+					undo[key] = nil
+				}
 				f := newFile(true)
 				must(w.putFile(d.In, n, f, fmt.Sprintf("d%d-%s", i, n)))
 				d.Files[n] = *f
-				delete(pendingRemoved, fmt.Sprintf("%d/%s", i, n))
+				delete(pendingRemoved, key)
 				note("put %d/%s=%q gz=%v link=%v", i, n, f.Content, f.Gz, f.Link)
+			}
+			// the operator takes the last edit of a file back (a bad edit is reverted): the file gets
+			// exactly its previous content again, or disappears if the edit had created it
+			actions["undoDirFile"] = func(rt *rapid.T) {
+				var keys []string
+				for k := range undo {
+					keys = append(keys, k)
+				}
+				if len(keys) == 0 {
+					rt.Skip("nothing to undo")
+				}
+				sort.Strings(keys)
+				key := rapid.SampledFrom(keys).Draw(rt, "undoKey")
+				var i int
+				var n string
+				_, _ = fmt.Sscanf(key, "%d/", &i)
+				n = key[strings.Index(key, "/")+1:]
+				d := w.dirs[i]
+				old := undo[key]
+				delete(undo, key)
+				if d.Subdirs[n] {
+					rt.Skip("the name is a directory now")
+				}
+				if old == nil {
+					if _, ok := d.Files[n]; !ok {
+						rt.Skip("already gone")
+					}
+					must(os.Remove(filepath.Join(d.In, n)))
+					delete(d.Files, n)
+					pendingRemoved[key] = true
+					note("undo %s (removed again)", key)
+					return
+				}
+				f := *old
+				must(w.putFile(d.In, n, &f, fmt.Sprintf("d%d-%s", i, n)))
+				d.Files[n] = f
+				delete(pendingRemoved, key)
+				note("undo %s=%q gz=%v link=%v", key, f.Content, f.Gz, f.Link)
+			}
+			if nDirs >= 2 {
+				// An edit in an earlier directory arrives together with a bad edit (strict mode: a reference
+				// to an unset variable) in a later one, so that apply fails after the earlier directory was
+				// processed; then the bad edit is taken back. The edit of the earlier directory is still
+				// "content changed since the last successful reload".
+				actions["editEarlierBreakLaterThenRevert"] = func(rt *rapid.T) {
+					if w.tolerate {
+						rt.Skip("needs strict mode")
+					}
+					d0, d1 := w.dirs[0], w.dirs[1]
+					n0, n1 := names[0], names[1]
+					if d0.Subdirs[n0] || d1.Subdirs[n1] {
+						rt.Skip("the name is a directory now")
+					}
+					put := func(i int, d *c47Dir, n string, content string) {
+						f := &c47File{Content: []byte(content)}
+						must(w.putFile(d.In, n, f, fmt.Sprintf("d%d-%s", i, n)))
+						d.Files[n] = *f
+						delete(pendingRemoved, fmt.Sprintf("%d/%s", i, n))
+						delete(undo, fmt.Sprintf("%d/%s", i, n))
+						note("put %d/%s=%q", i, n, content)
+					}
+					put(1, d1, n1, "ok: 1\n")
+					doApply(rt)
+					put(0, d0, n0, fmt.Sprintf("edit: %d\n", applies))
+					put(1, d1, n1, "bad: $("+c47VarU+")\n")
+					doApply(rt)
+					put(1, d1, n1, "ok: 1\n")
+					doApply(rt)
+				}
 			}
 			actions["removeDirFile"] = func(rt *rapid.T) {
 				i := rapid.IntRange(0, nDirs-1).Draw(rt, "dir")
